@@ -1,5 +1,6 @@
 """Which files, theorems and lanes decide which property."""
 import disp_checks
+import tpl_checks
 
 CORE_A = ["Model/Base.v", "Model/Dispatch.v", "Model/Routing.v", "Model/DispLane.v", "Gen/DispatchSrc.v", "Gen/ConvSrc.v",
           "Proofs/DispatchProofs.v", "Proofs/RoutingProofs.v", "Proofs/SrcObligations.v"]
@@ -9,17 +10,17 @@ SIZES = {"quick": 1, "thorough": 12}
 
 def _c07(v, b, tier):
     n = 120 * SIZES[tier]
-    disp_checks.check_c07(v, b.t1_summary if b.t1_ok else default_summary(), n, 22 if tier == "quick" else 60)
+    disp_checks.check_c07(v, b.t1_summary, n, 22 if tier == "quick" else 60)
 
 
 def _c08(v, b, tier):
     n = 90 * SIZES[tier]
-    disp_checks.check_c08(v, b.t1_summary if b.t1_ok else default_summary(), n, 22 if tier == "quick" else 60)
+    disp_checks.check_c08(v, b.t1_summary, n, 22 if tier == "quick" else 60)
 
 
 def _c18(v, b, tier):
     n = 90 * SIZES[tier]
-    disp_checks.check_c18(v, b.t1_summary if b.t1_ok else default_summary(), n, 14 if tier == "quick" else 40)
+    disp_checks.check_c18(v, b.t1_summary, n, 14 if tier == "quick" else 40)
 
 
 def default_summary():
@@ -28,11 +29,30 @@ def default_summary():
     return json.loads((COQ / "GenDefault" / "t1_summary.json").read_text())
 
 
+CORE_TPL = ["Model/Base.v", "Model/Templates.v", "Model/TplLane.v", "Gen/GenSrc.v", "Proofs/TemplatesProofs.v", "Proofs/SrcObligationsGen.v"]
+
+
+def _c04(v, b, tier):
+    tpl_checks.check_c04(v, b.t1_summary, 70 * SIZES[tier], 6)
+
+
+def _c10(v, b, tier):
+    tpl_checks.check_c10(v, b.t1_summary, 60 * SIZES[tier], 5)
+
+
+RULE_TPL = ("scenarios = a generated attrs class or dataclass (0-6 attributes in random order, each independently required / default / factory, "
+            "kw_only, init=False, private or explicit alias, field converter, untyped) x generator options (forbid, use_alias, include_init_false) x "
+            "per-attribute overrides (omit, rename incl. quote/backslash keys) ; payloads = mostly-valid dicts (missing / bad / extra keys) plus "
+            "junk objects (lists, tuples, strings, ints, None, non-dict Mappings); a case is non-trivial if its class has >= 2 attributes; "
+            "distinct = distinct sha1 of (scenario, payload)")
+
 RULE_DISP = ("sessions of public-API operations (register_*_hook on classes/NewTypes/unions, *_hook_func, *_hook_factory plain and "
              "converter-taking, get_*_hook cached/uncached, structure/unstructure calls, copy) drawn from one PRNG over a pool of ~70 types "
              "and 13 predicates; a case is non-trivial if it has >= 3 operations of >= 2 kinds; distinct = distinct sha1 of the step list")
 
 REGISTRY = {
+    "C04": {"props_file": "Props/C04.v", "files": CORE_TPL + ["Props/C04.v"], "run": _c04, "rule": RULE_TPL, "t1_sections": ["gen"]},
+    "C10": {"props_file": "Props/C10.v", "files": CORE_TPL + ["Props/C10.v"], "run": _c10, "rule": RULE_TPL, "t1_sections": ["gen"]},
     "C07": {"props_file": "Props/C07.v", "files": CORE_A + ["Props/C07.v"], "run": _c07, "rule": RULE_DISP},
     "C08": {"props_file": "Props/C08.v", "files": CORE_A + ["Props/C08.v"], "run": _c08, "rule": RULE_DISP},
     "C18": {"props_file": "Props/C18.v", "files": CORE_A + ["Props/C18.v"], "run": _c18, "rule": RULE_DISP},
